@@ -110,7 +110,7 @@ InvOutputIsSubstitution ==
         LET c == CHOOSE c \in Range(FamSeq(fam)) : c.l = res.sel IN res.out = Subst(c.o, SigmaOf(res.bind))
 
 (* the structural subsumption test is sound on the checked universe: if GenC(P, Q) then P accepts whatever Q accepts *)
-ASSUME \A i, j \in 1..Len(AllC) : GenSoundOn(AllC[i], AllC[j])
+ASSUME Fault # "none" \/ \A i, j \in 1..(NU + NB) : GenSoundOn(AllC[i], AllC[j])      \* GenC is FALSE for variadic candidates
 
 (* formula-independent consequence of "most specific" (also part of AFail, stated on its own here): the selected
    candidate is not strictly more general than another candidate of the family that matches the arguments *)
@@ -120,8 +120,21 @@ InvSubsumption ==
             s == CHOOSE c \in F : c.l = res.sel
         IN \A q \in F : (q # s /\ MatchesA(q, Args) /\ MoreGeneral(s, q)) => SubsumptionNotAsserted(s, q)
 
+(* Teeth of level A in the ordinary (Fault = "none") run, at no extra JVM: every named fault of level B is caught by a
+   level-A clause on at least one family of one or two candidates of the focus groups.  The same faults are run as
+   configurations of their own (cfg/Resolution.fault_*.cfg, InvLevelA must be violated) in the thorough tier. *)
+ArgsOf(k, i) == IF k = "u" THEN ArgsU[i] ELSE IF k = "b" THEN ArgsB[i] ELSE ArgsV[i]
+FaultCaughtBy(flt) ==
+    \E g \in Focus : \E f \in UpTo({(IF g.k = "b" THEN NU ELSE 0) + i : i \in g.c}, 2) : \E a \in g.a :
+        LET fs   == FamSeq(CHOOSE p \in Perms(f) : IsAsc(p))
+            args == ArgsOf(g.k, a)
+            rk   == [l \in {fs[i].l : i \in 1..Len(fs)} |->
+                        LET c == CHOOSE c \in Range(fs) : c.l = l IN RankB(c) + TryMatchFB(c, args, flt).adj]
+        IN  AFail(Range(fs), args, rk, ResolveFB(fs, args, flt)) # ""
+ASSUME Fault # "none" \/ \A flt \in Faults \ {"none"} : FaultCaughtBy(flt)
+
 (* the pools, printed once so that the glue can render candidates / arguments in the driver's language *)
-ASSUME PrintT(<<"POOL", ToJson([c |-> AllC, au |-> ArgsU, ab |-> ArgsB, av |-> ArgsV])>>)
+ASSUME Emit => PrintT(<<"POOL", ToJson([c |-> AllC, au |-> ArgsU, ab |-> ArgsB, av |-> ArgsV])>>)
 
 (* pools for the configurations *)
 QU  == {1, 2, 3, 4, 7, 8, 9, 10, 12, 15, 16, 17, 18, 20}
